@@ -10,20 +10,22 @@ package wastepb
 //@   ensures n == len(recv.allWasteRecords)
 //@   modifies nothing
 //@
-//@ // newest first: res[j] == records[start-1-j]; any start and any count must be answered without a panic
+//@ // newest first: res[j] == records[s-1-j] where s is start clamped into [0, len(records)];
+//@ // any start (it comes from a client's page token) and any count must be answered without a panic
 //@ func (*Model).ListWasteRecords(start, count) (res)
 //@   requires recv != nil
 //@   letold recs := recv.allWasteRecords
-//@   ensures [none] start <= 0 ==> len(res) == 0
-//@   ensures [len] start > 0 && start <= len(recs) ==> (count <= 1 ==> len(res) == 1) && (count > 1 ==> len(res) == min(start, count))
-//@   ensures [order] start <= len(recs) ==> forall j int :: 0 <= j && j < len(res) ==> res[j] == recs[start-1-j]
+//@   letold s := min(max(start, 0), len(recv.allWasteRecords))
+//@   ensures [none] s == 0 ==> len(res) == 0
+//@   ensures [len] s > 0 ==> (count <= 1 ==> len(res) == 1) && (count > 1 ==> len(res) == min(s, count))
+//@   ensures [order] forall j int :: 0 <= j && j < len(res) ==> res[j] == recs[s-1-j]
 //@   modifies nothing
 //@   replay WasteList(start, count)
 //@   loop 0:
-//@     invariant 0 - 1 <= i && i <= start - 1 && (start > len(recs) || i < len(recs))
-//@     invariant len(wasteRecords) == start - 1 - i && (len(wasteRecords) > 0 ==> fresh(wasteRecords))
-//@     invariant start - 1 - i > 0 ==> start - 1 - i < count
-//@     invariant forall j int :: 0 <= j && j < len(wasteRecords) ==> wasteRecords[j] == recs[start-1-j]
+//@     invariant 0 - 1 <= i && i <= s - 1
+//@     invariant len(wasteRecords) == s - 1 - i && (len(wasteRecords) > 0 ==> fresh(wasteRecords)) && (len(wasteRecords) == 0 ==> isnil(wasteRecords))
+//@     invariant s - 1 - i > 0 ==> s - 1 - i < count
+//@     invariant forall j int :: 0 <= j && j < len(wasteRecords) ==> wasteRecords[j] == recs[s-1-j]
 //@     decreases i + 1
 //@
 //@ func (*ModelServer).ListWasteRecords(ctx, req) (resp, err)
